@@ -15,6 +15,7 @@ type Val struct {
 	S   *Sort
 	GoT types.Type
 	Clo *Closure
+	Fn  *types.Func // the value is this named function / method expression
 }
 
 // Env is the environment spec expressions are elaborated in.
@@ -709,6 +710,14 @@ func (ex *Exec) specFuncApp(env *Env, sf *SpecFunc, args []Val) Val {
 // pureApp applies a Go function/method with a `pure` contract as an uninterpreted function.
 func (ex *Exec) pureApp(env *Env, fn *types.Func, recv *Val, args []Val, what string) Val {
 	key := funcKey(fn)
+	// same precedence as at call sites: a contract attached to the static receiver type wins
+	if recv != nil && recv.GoT != nil {
+		if n := namedOf(recv.GoT); n != nil && n.Obj().Pkg() != nil {
+			if sk := n.Obj().Pkg().Path() + "." + n.Obj().Name() + "." + fn.Name(); ex.cs.Funcs[sk] != nil {
+				key = sk
+			}
+		}
+	}
 	if sig := fn.Type().(*types.Signature); sig.Variadic() {
 		n := sig.Params().Len()
 		last := sig.Params().At(n - 1).Type()
@@ -962,6 +971,11 @@ func (env *Env) elabCallMulti(e SExpr) []Val {
 			elabFail("no method %s on %s", f.Name, recv.GoT)
 		}
 		fc := ex.cs.Funcs[funcKey(fn)]
+		if n := namedOf(recv.GoT); n != nil && n.Obj().Pkg() != nil {
+			if sfc := ex.cs.Funcs[n.Obj().Pkg().Path()+"."+n.Obj().Name()+"."+fn.Name()]; sfc != nil {
+				fc = sfc
+			}
+		}
 		if fc == nil || !fc.Pure {
 			elabFail("%s has no pure contract", funcKey(fn))
 		}
@@ -996,7 +1010,7 @@ func (ex *Exec) callbackApp(fv Val, name string, sig *types.Signature, args []Va
 	for i := 0; i < sig.Results().Len(); i++ {
 		rt := sig.Results().At(i).Type()
 		rs := ex.sortOf(rt)
-		fn := fmt.Sprintf("cb_%s_%d", sanitize(name), i)
+		fn := fmt.Sprintf("cb_%s_%d_%s_%s", sanitize(name), i, sanitize(strings.Join(sorts[1:], "_")), sanitize(rs.Name))
 		ex.declare(fmt.Sprintf("(declare-fun %s (%s) %s)", fn, strings.Join(sorts, " "), rs.Name))
 		out = append(out, Val{T: app(fn, terms...), S: rs, GoT: rt})
 	}
